@@ -9,8 +9,8 @@
 From Coq Require Export List Permutation Sorted ZArith Bool.
 From GV Require Export Par.Rows Par.Merge Par.Morsel Par.Accum Par.Push Par.ExtSort Par.Sched.
 From GV Require Import Par.Proofs Par.ProofsAccum Par.ProofsMorsel Par.ProofsPush Par.ProofsSched Par.ProofsExt
-     Par.ProofsCmp Par.ProofsC17.
-Import ListNotations.
+     Par.ProofsCmp Par.ProofsC17 Par.ProofsDistinct.
+Export ListNotations.
 
 (** ** 1. k-way merge of sorted runs (merge_sorted_runs, merge_sorted_chunks, ExternalSort::k_way_merge) *)
 
@@ -249,6 +249,35 @@ Theorem external_sort_refuted : exists (threshold : nat) (cs : list (list (Z * Z
   /\ k_cross_ties cmp (spill_runs cmp threshold cs) = true.
 Proof. exact external_sort_refuted_l. Qed.
 Print Assumptions external_sort_refuted.
+
+(** ** 6b. DISTINCT: partial distinct sets of the workers, merged *)
+
+Theorem distinct_merge_parts : forall (A : Type) (req : A -> A -> bool),
+  (forall a b, req a b = true <-> a = b) ->
+  forall (parts : list (list A)) (seen : list A),
+  dedup req (fun r => r) seen (concat (map (dedup req (fun r => r) []) parts))
+  = dedup req (fun r => r) seen (concat parts).
+Proof. exact (@distinct_merge_parts). Qed.
+Print Assumptions distinct_merge_parts.
+
+(** whatever rows each worker saw (any schedule): the merged distinct set is that of the sequential run *)
+Theorem distinct_schedule_independent : forall (A : Type) (req : A -> A -> bool),
+  (forall a b, req a b = true <-> a = b) ->
+  forall (parts : list (list A)) (rows : list A), Permutation (concat parts) rows ->
+  Permutation (dedup req (fun r => r) [] (concat (map (dedup req (fun r => r) []) parts)))
+              (dedup req (fun r => r) [] rows).
+Proof. exact (@distinct_schedule_independent_l). Qed.
+Print Assumptions distinct_schedule_independent.
+
+(** merge_distinct_results (64-bit row hashes) = DISTINCT by row equality when the hash is injective on the run *)
+Theorem merge_distinct_spec : forall (A : Type) (req : A -> A -> bool),
+  (forall a b, req a b = true <-> a = b) ->
+  forall (results : list (list (list (Z * A)))),
+  (forall x y, In x (concat (concat results)) -> In y (concat (concat results)) -> (fst x = fst y <-> snd x = snd y)) ->
+  merge_distinct_results results
+  = rows_to_chunks (dedup req (fun r => r) [] (map snd (concat (concat results)))) 2048.
+Proof. exact (@merge_distinct_spec_l). Qed.
+Print Assumptions merge_distinct_spec.
 
 (** ** 7. hash partitions and spill files *)
 
